@@ -361,6 +361,25 @@ def known_findings(prop: str):
     return known, fixed
 
 
+def replay_by_rerun(mod, prop, path):
+    """Replay of a recorded violation by re-running the (deterministic, seeded) exploration that found it: same tier,
+    same seed, current tree.  -> 1 when a failure that no known finding explains (or a model/implementation
+    difference) shows up again, 0 when the exploration is clean now."""
+    payload = json.load(open(path))
+    seed, tier = int(payload.get("seed", 0)), payload.get("tier", "quick")
+    oc = Outcome(prop)
+    mod.run(oc, tier, seed)
+    known, _ = known_findings(prop)
+    triggers = {k["trigger"] for k in known}
+    bad = [f for f in oc.spec_fail if f[3] is None or f[3] not in triggers]
+    print(json.dumps({"replayed": path, "tier": tier, "seed": seed, "evaluations": oc.evaluations,
+                      "failures_not_explained_by_a_known_finding": len(bad),
+                      "model_vs_implementation_differences": len(oc.corr_mismatch),
+                      "first": (bad[0][1] if bad else (oc.corr_mismatch[0][2] if oc.corr_mismatch else None))},
+                     indent=1, default=str)[:3000])
+    return 1 if bad or oc.corr_mismatch else 0
+
+
 # --------------------------------------------------------------------------
 # Outcome of a property run
 # --------------------------------------------------------------------------
